@@ -184,6 +184,11 @@ func (w *World) Verify(c *Contract) (res *TargetResult) {
 	}
 	x.safeOn = c.SafeSet
 	x.safeProps = c.Safe
+	if c.AllocBound > 0 {
+		x.allocBound = func(f *frame, n *node, in *ssa.MakeSlice, ln string) {
+			x.oblige("alloc", "make<="+fmt.Sprint(c.AllocBound), c.AllocProps, and(n.reach, "(bvugt "+ln+" "+bvLit(c.AllocBound, 64)+")"), f.fn, in.Pos())
+		}
+	}
 	x.ctr = c
 	heap := &Heap{m: map[string]hent{}}
 	if usesGlobals(fn, 0, map[*ssa.Function]bool{}) {
@@ -252,7 +257,7 @@ func (w *World) Verify(c *Contract) (res *TargetResult) {
 					res = []Val{r.val}
 				}
 				t := x.evalClause(f, e, r.heap, entry, args, res, nil)
-				x.oblige("post", fmt.Sprintf("ensures%d.ret%d", e.N, i), e.Props, and(r.reach, not(t)), fn, token.NoPos)
+				x.oblige("post", fmt.Sprintf("ensures%d.ret%d", e.N, i), e.Props, and(r.reach, not(t)), fn, r.pos)
 				o := x.obls[len(x.obls)-1]
 				o.Detail, o.Clause, o.Group = e.Text, e, fmt.Sprintf("ensures%d", e.N)
 			}
@@ -317,6 +322,9 @@ func contractProps(c *Contract) []string {
 		}
 	}
 	for _, p := range c.Safe {
+		seen[p] = true
+	}
+	for _, p := range c.AllocProps {
 		seen[p] = true
 	}
 	var out []string
